@@ -22,6 +22,7 @@ type Op struct {
 	GateNext bool   `json:"gate_next,omitempty"` // (send+panic) the next incarnation blocks in Started until `release`
 	From     int    `json:"from,omitempty"`      // (send) 0 = no sender, 1..3 = sender pool
 	N        int    `json:"n,omitempty"`         // (send) repeat count > 1: a burst of plain messages
+	Chain    int    `json:"chain,omitempty"`     // (send) the receiver sends itself the next link from inside Receive, Chain times (ids ID+1..ID+Chain)
 }
 
 // Spec is a case: configuration + fault plan + history.
@@ -73,6 +74,7 @@ type item struct {
 	id       int
 	panics   bool
 	internal bool
+	chain    int
 	gateNext bool
 	from     int
 	gate     bool
@@ -287,6 +289,10 @@ func (s *Sim) step() {
 			return
 		default:
 			s.exp("user", &it)
+			if it.chain > 0 {
+				// the receiver sends itself the next link: it queues up behind whatever is in the inbox now
+				s.inbox = append(s.inbox, item{id: it.id + 1, chain: it.chain - 1, from: -1})
+			}
 			if it.panics {
 				if it.gateNext {
 					s.pendGate = true
@@ -334,6 +340,9 @@ func (s *Sim) Send(op Op) {
 	}
 	for k := 0; k < n; k++ {
 		it := item{id: op.ID + k, panics: op.Panic && n == 1, internal: op.Internal && op.Panic && n == 1, gateNext: op.GateNext && n == 1, from: op.From}
+		if n == 1 && !op.Panic {
+			it.chain = op.Chain
+		}
 		if !s.Alive {
 			s.DLs = append(s.DLs, DL{ID: it.id, From: it.from})
 			continue
